@@ -4,6 +4,9 @@ import "pgregory.net/rapid"
 
 func Gen(t *rapid.T) *Case {
 	c := &Case{PanicHandler: rapid.IntRange(0, 3).Draw(t, "ph") != 0, Publishes: rapid.IntRange(1, 5).Draw(t, "pubs")}
+	if c.PanicHandler {
+		c.PHDelayUs = rapid.SampledFrom([]int{0, 0, 100, 1000, 3000}).Draw(t, "phdelay")
+	}
 	c.Obs = rapid.IntRange(0, 2).Draw(t, "obs") == 0
 	c.Hooks = rapid.IntRange(0, 3).Draw(t, "hooks") == 0
 	c.Store = rapid.IntRange(0, 3).Draw(t, "store") == 0
